@@ -37,6 +37,8 @@ def main():
         demo = "demo.py" if os.path.exists(os.path.join(src, "demo.py")) else "demo.sh"
         runner = "/venv/bin/python -B" if demo.endswith(".py") else "bash"
         env = dict(os.environ, PYTHONPATH=wt, PYTHONDONTWRITEBYTECODE="1")
+        for var in ("XONSH_TREE", "XONSH_WT", "WT", "XONSH_REPO", "XONSH_SRC", "REPO", "REPO_ROOT", "WORKTREE"):
+            env[var] = wt  # demos locate the tree through various variables or relative to their own file
         env.pop("XONSH_XONSH_VERIF", None)
         shutil.copy(os.path.join(src, demo), f"/tmp/eval-{name}.{demo}")
         text = open(f"/tmp/eval-{name}.{demo}").read()
@@ -44,6 +46,7 @@ def main():
         m = re.findall(r"/tmp/mut/\w+/wt", text)
         for old in set(m):
             text = text.replace(old, wt)
+        text = text.replace('os.path.normpath(os.path.join(HERE, "..", "..", "wt"))', repr(wt))
         open(f"/tmp/eval-{name}.{demo}", "w").write(text)
         rc0, out0 = sh(f"{runner} /tmp/eval-{name}.{demo}", cwd=wt, env=env, timeout=300)
         meta["demo_clean_rc"] = rc0
